@@ -313,6 +313,16 @@ def run(ctx: Ctx) -> Outcome:
         req.append(request)
         handlers.append(on_answer)
 
+    # ---- corpus: the recorded failing inputs of repaired defects are replayed first
+    import json as _json
+    for cf in sorted((common.VERIF / "corpus" / "C07").glob("*.json")):
+        rec = _json.loads(cf.read_text())
+        still = replay(ctx, rec["case"])
+        out.case(("corpus", cf.name), {"corpus": cf.name, "still_fails": bool(still)})
+        if still:
+            out.find(rec["signature"], f"corpus case {cf.name} fails again: {still}", rec["case"])
+        out.hit("corpus.replayed")
+
     # ---- (0) the generated table, read back through the driver, equals a fresh reflective dump
     def check_row(i: int, r: dict):
         def h(ans):
@@ -1154,7 +1164,33 @@ def replay(ctx: Ctx, case: dict):
         r1 = helpers.repair_html(case["value"])
         r2 = helpers.repair_html(r1)
         return None if r1 == r2 else f"repair_html not idempotent: {r1!r} -> {r2!r}"
-    # spec / live / law cases: re-run the whole check and look for the same class of finding
+    if k == "spec":
+        model = capellambse.MelodyModel(str(common.REPO / "tests/data/melodymodel/5_2/Melody Model Test.aird"))
+        elm = etree.Element("ownedSpecification")
+        for tag, text in case["kids"]:
+            etree.SubElement(elm, tag).text = text
+        spec = _descriptors._Specification(model, elm)
+        last = None
+        for st in case["steps"]:
+            try:
+                if st["o"] == "set":
+                    spec[st["k"]] = st["v"]
+                    last = st
+                elif st["o"] == "del":
+                    del spec[st["k"]]
+                    last = st
+                elif st["o"] == "get":
+                    spec[st["k"]]
+            except (KeyError, ValueError):
+                last = None
+        if last and last["o"] == "set":
+            got = str(spec[last["k"]])
+            if got != last["v"]:
+                return f"spec[{last['k']!r}] = {last['v']!r} reads back {got!r}"
+        if last and last["o"] == "del" and last["k"] in list(spec):
+            return f"del spec[{last['k']!r}] left the key behind"
+        return None
+    # live / law cases: re-run the whole check and look for the same class of finding
     o = run(ctx)
     for f in o.findings:
         if f.replay.get("kind") == k:
